@@ -270,6 +270,32 @@ def build_input(seed: int, opts: dict):
             if rec is not None and rec.id not in {r.id for r in recs}:
                 recs.append(rec)
                 case.meta['context_snv'] = case.meta.get('context_snv', 0) + 1
+        if opts.get('internal_met', 0) > 0:
+            # M>K at an internal methionine that STARTS a tryptic product (…K|M…): the variant peptide
+            # is the reference product without its first residue — canonical only if the pool wrongly
+            # holds Met-removed forms of internal products
+            from Bio.Seq import Seq as _Seq
+            for tx_id, m_ in anno.transcripts.items():
+                if not m_.is_protein_coding or rng.random() > opts['internal_met']:
+                    continue
+                ts_ = m_.get_transcript_sequence(genome[m_.transcript.chrom])
+                if not ts_.orf:
+                    continue
+                o0_ = int(ts_.orf.start)
+                cds_ = str(ts_.seq)[o0_:int(ts_.orf.end)]
+                aa_ = str(_Seq(cds_[:len(cds_) // 3 * 3]).translate())
+                cand_ = [i for i in range(2, len(aa_) - 8) if aa_[i] == 'M' and aa_[i - 1] in 'KR'
+                         and aa_[i + 1] != 'P' and '*' not in aa_[:i + 8]]
+                if not cand_:
+                    continue
+                i_ = rng.choice(cand_)
+                try:
+                    rec = gen_ref.make_snv(anno, genome, tx_id, o0_ + 3 * i_ + 1, 'A')
+                except Exception:   # noqa
+                    rec = None
+                if rec is not None and rec.id not in {r.id for r in recs}:
+                    recs.append(rec)
+                    case.meta['internal_met'] = 1
         if opts.get('silent_pair', 0) > 0:
             for tx_id in anno.transcripts:
                 if rng.random() < opts['silent_pair']:
@@ -373,7 +399,7 @@ def cv_worker(job):
         if case.meta.get('special'):
             kw['min_length'] = min(kw['min_length'], 7)
             out['stats']['special_' + case.meta['special']] = 1
-        canon = pipe.canonical_pool(case, **kw)
+        canon = pipe.model_canonical_pool(case, **kw)
         store: list = []
         if opts.get('stages'):
             with graph_stages.capture(store):
@@ -411,6 +437,8 @@ def cv_worker(job):
             out['stats']['junction_snv_pair_with_exon_deletion'] = 1
         if case.meta.get('planted_start_context'):
             out['stats']['planted_start_context'] = 1
+        if case.meta.get('internal_met'):
+            out['stats']['internal_met_to_lys'] = 1
         if case.meta.get('silent_pair'):
             out['stats']['synonymous_snv_pair_in_one_codon'] = 1
         if case.meta.get('planted_trp'):
